@@ -24,7 +24,7 @@ CONFIG = {"quick": {"shards": 8, "timeout_s": 900, "cases": 64},
           "thorough": {"shards": 16, "timeout_s": 3000, "cases": 1600}}
 REQUIRED_COUNTERS = ["written_values_p2g", "written_values_g2p", "written_values_g2g", "written_values_vectorised", "round_trip_checks",
                      "member_results_vs_standalone_gas", "member_results_vs_standalone_power", "converged_flag_checks", "infeasible_member_checks",
-                     "timeseries_steps_compared"]
+                     "timeseries_steps_compared", "multinets_with_member_controllers"]
 
 
 def gen_cases(tier, seed):
@@ -60,7 +60,7 @@ def run_case(case, ctx):
     add_net_to_multinet(mn, g1, "gas")
     two_gas = bool(rng.random() < 0.6)
     if two_gas:
-        g2 = netgen.build(netgen.gen_hydraulic(rng, fluid=f2, features=("multi_grid",), n=int(rng.integers(4, 8))))
+        g2 = netgen.build(netgen.gen_hydraulic(rng, fluid=f2, features=[("multi_grid",), ("valves",)][int(rng.integers(2))], n=int(rng.integers(4, 8))))
         add_net_to_multinet(mn, g2, "gas_b")
     if rng.random() < 0.3:
         add_net_to_multinet(mn, netgen.build(netgen.gen_heating(rng, modes=["MF_DT", "QE_MF"])), "heat")
@@ -109,6 +109,18 @@ def run_case(case, ctx):
         nctrl += 1
         expected.append(("g2g", "gas_b", "source", src_to, "mdot_kg_per_s", g1.sink.at[sk_from, "mdot_kg_per_s"] * g1.sink.at[sk_from, "scaling"] * h1 / h2 * eff_g2g, False))
     desc = {"fluids": [f1, f2 if two_gas else None], "controllers": nctrl}
+    # ---- members may carry controllers of their own (same level as the coupling controllers)
+    from pandapower.control import ConstControl
+    own = []
+    for name, net in list(mn["nets"].items()):
+        if name != "power" and "sink" in net and len(net.sink) and rng.random() < 0.5:
+            plain = [int(i) for i in net.sink.index if not str(net.sink.at[i, "name"]).startswith("g2")]
+            if plain:
+                ConstControl(net, element="sink", variable="mdot_kg_per_s", element_index=plain[:1], profile_name=None, data_source=None)
+                own.append(name)
+    if len(own) >= 1:
+        obs.count("multinets_with_member_controllers")
+    desc["members_with_own_controller"] = own
     # ---- coupled control run
     cv = prepare_run_ctrl(mn, None)
     outcome = "ok"
@@ -119,6 +131,7 @@ def run_case(case, ctx):
     except Exception as e:
         outcome = "error:" + type(e).__name__
         obs.count("run_control_raised_" + type(e).__name__)
+        obs.violate("run_control_raises", "run_control on a valid multinet raised %s: %s" % (type(e).__name__, str(e)[:100]), **desc)
     judged = 0
     if outcome == "ok":
         for kind, netname, table, idx, col, want, vec in expected:
